@@ -9,6 +9,7 @@ int vp_symbolic_phase = 0;
 #define VP_REALLOC_K 0       /* words copied by a loop model instead of the array primitives; harnesses that reallocate with SYMBOLIC sizes (C03 growth) set 64: exact there, pure cost elsewhere */
 #endif
 #ifndef VP_KEEP_CBMC_REALLOC
+#undef realloc      /* the function itself stays available for code compiled without vp_typed_realloc.h */
 void *realloc(void *p, size_t n)
 {
   if (vp_symbolic_phase) {
